@@ -788,7 +788,7 @@ func (g *c02gen) validIface(rich bool) *c02table {
 		case 2:
 			s.setL("servers", []string{"::"})
 		default:
-			pool := []string{"2001:db8::1", "2001:db8::2", "fd00::53", "fe80::1", "::", "fe80::1%eth0", "fe80::1%eth1", "::1", "::%lo"}
+			pool := []string{"2001:db8::1", "2001:db8::2", "fd00::53", "fe80::1", "::", "fe80::2", "2001:db8:0:1::53", "::1", "fec0::1"}
 			verifh.Shuffle(r, pool)
 			s.setL("servers", append([]string(nil), pool[:1+r.Intn(5)]...))
 		}
